@@ -6,7 +6,8 @@
    applied to a computed label, Info[pc[t]]), so this module RESTATES the next-state
    relation of RWLock.tla action by action, with the label table Info replaced by the
    operators OpOf/LockOf.  The restatement is not trusted: MC_RWLockIndEq.tla has TLC
-   check, on EVERY state of a two-thread instance (not only the reachable ones), that
+   check, on EVERY state of a two-thread instance that satisfies Roles (not only the
+   reachable ones) and on the reachable states of 2 readers + 2 writers, that
        OpOf/LockOf = RWLock!Info,   Step(t) here = RWLock!Step(t) as a relation,
        Enabled(t) here = ENABLED RWLock!Step(t),   the properties here = the ones there.
 
@@ -224,4 +225,9 @@ IndInit == Arbitrary /\ IndInv
 
 (* what the invariant implies (checked on IndInit with --length=0) *)
 Safety == Mutex /\ ReleaseHeld /\ NoDeadlock /\ CountersOK
+
+(* self-test of the implication: without the conjunct about no_writers the rest - still a true
+   statement about the lock - does not imply Mutex; Apalache must say so *)
+WeakInv  == TypeOK /\ Roles /\ OwnQueue /\ OwnRMutex /\ OwnWMutex /\ Counters /\ Edges /\ GateNR
+WeakInit == Arbitrary /\ WeakInv
 =============================================================================
